@@ -377,3 +377,38 @@ Qed.
 
 Lemma live_sorted : forall l, hsorted (live l).
 Proof. intros. unfold live. apply hsorted_hsort. Qed.
+
+(* ---------- append order within one height ---------- *)
+Definition at_h (h : N) := fun x : N * N => fst x =? h.
+
+Lemma filter_at_h_ins : forall h e l, hsorted l ->
+  filter (at_h h) (ins e l) = if fst e =? h then filter (at_h h) l ++ [e] else filter (at_h h) l.
+Proof.
+  induction l as [|x r IH]; intros Hs.
+  - simpl. unfold at_h at 1. destruct (fst e =? h); reflexivity.
+  - destruct Hs as [H1 H2]. simpl ins. destruct (fst e <? fst x) eqn:E.
+    + change (filter (at_h h) (e :: x :: r)) with
+        (if at_h h e then e :: filter (at_h h) (x :: r) else filter (at_h h) (x :: r)).
+      unfold at_h at 1. destruct (fst e =? h) eqn:Eh; [|reflexivity].
+      assert (Z : filter (at_h h) (x :: r) = []).
+      { assert (G : forall y, In y (x :: r) -> at_h h y = false).
+        { intros y [Hy|Hy]; unfold at_h; [subst; lia|]. specialize (H1 _ Hy). lia. }
+        clear -G. induction (x :: r) as [|y l IHl]; simpl; auto.
+        rewrite G by (simpl; auto). apply IHl. intros; apply G; simpl; auto. }
+      rewrite Z. reflexivity.
+    + simpl. rewrite (IH H2). destruct (at_h h x); destruct (fst e =? h); reflexivity.
+Qed.
+
+Lemma filter_at_h_hsort : forall h l acc, hsorted acc ->
+  filter (at_h h) (fold_left (fun acc e => ins e acc) l acc) = filter (at_h h) acc ++ filter (at_h h) l.
+Proof.
+  induction l as [|e l IH]; simpl; intros acc Hs; [rewrite app_nil_r; reflexivity|].
+  rewrite IH by (apply hsorted_ins; auto). rewrite filter_at_h_ins by auto.
+  change (at_h h e) with (fst e =? h). destruct (fst e =? h); [rewrite <- app_assoc|]; reflexivity.
+Qed.
+
+(* the entries of one height come back in the order they were appended *)
+Lemma live_stable : forall l h,
+  filter (at_h h) (live l) =
+  filter (at_h h) (filter (fun e => is_live (prune_bound l) (fst e)) (entries l)).
+Proof. intros. unfold live, hsort. rewrite filter_at_h_hsort by exact I. reflexivity. Qed.
